@@ -283,6 +283,21 @@ func c13Prune(p vbase.Params, r *vbase.Result) {
 		logger := NewCapLogger("c13p", 0)
 		el := eventloop.New(logger, 1000)
 		snd := &StubSender{ID: 1}
+		// some blocks are never delivered as proposals: the committer obtains them through block fetch when it walks the chain
+		fetchOnly := map[int]bool{}
+		if rng.Chance(1, 2) {
+			for id := 1; id < len(f.Blocks); id++ {
+				if rng.Chance(1, 4) {
+					fetchOnly[id] = true
+				}
+			}
+		}
+		snd.Fetch = func(h hotstuff.Hash) (*hotstuff.Block, bool) {
+			if i, ok := rf.byHash[h]; ok && fetchOnly[i] {
+				return rf.blocks[i], true
+			}
+			return nil, false
+		}
 		chain := blockchain.New(el, logger, snd)
 		m := w.M(1)
 		vs, err := protocol.NewViewStates(chain, m.Auth)
@@ -309,7 +324,12 @@ func c13Prune(p vbase.Params, r *vbase.Result) {
 		// store order: causal with occasional swaps
 		order := make([]int, 0, len(f.Blocks)-1)
 		for id := 1; id < len(f.Blocks); id++ {
-			order = append(order, id)
+			if !fetchOnly[id] {
+				order = append(order, id)
+			}
+		}
+		if len(order) == 0 {
+			continue
 		}
 		if rng.Chance(1, 3) {
 			for s := 0; s < 3; s++ {
@@ -334,7 +354,7 @@ func c13Prune(p vbase.Params, r *vbase.Result) {
 				path := []int{}
 				okPath := true
 				for cur != committed && cur > 0 {
-					if !stored[cur] {
+					if !stored[cur] && !fetchOnly[cur] {
 						okPath = false
 						break
 					}
@@ -375,6 +395,7 @@ func c13Prune(p vbase.Params, r *vbase.Result) {
 				}
 				for _, x := range exp {
 					onCommitted[x] = true
+					stored[x] = true // fetched ancestors are now in the store
 				}
 				committed = target
 				if vs.CommittedBlock().Hash() != rf.blocks[target].Hash() {
